@@ -1,15 +1,14 @@
 from pyvc.runner import Prop, Fn, Lem, Ground, Native
+from props.parser_common import expression_callbacks, property_callbacks, file_callbacks, ASSUMPTIONS
 
 PROP = Prop(
     'C07',
-    modules=[],
-    tasks=[],
+    modules=['contracts.parser_c01'],
+    tasks=[*expression_callbacks('C07'), *property_callbacks('C07'), *file_callbacks('C07')],
     bounded=[Native('bounded.parser_native.fuzz')],
-    level='exploration',
-    explanation='BOUNDED at this commit: the deciding part of this property lies in third-party code (Lark LALR parser and lexer; '
-                'attrs.asdict / json / argparse for the CLI), which no contract on /repo code can decide; the parser callbacks '
-                'are being put under contract separately.',
-    assumptions=['A-LARK: Lark decides precedence, associativity, layout, accept/reject, longest match from the grammar text',
-                 'A-3P: attrs.asdict, json.dumps, argparse'],
-    trusted_base=['CPython', 'lark 1.3.1'],
+    dep_tags=['C01', 'C18', 'C03', 'C05', 'C16', 'C02'],
+    level='other',
+    explanation='proved: safety obligations of the callbacks under contract: under the rule-derived child shapes only the documented exception classes can escape (every assert, subscript, attribute access on a sum type and enum lookup on every path is discharged); BOUNDED (A-LARK): exceptions of the parsing library itself, statelessness of the parser object (fuzzing, call-order permutations).',
+    assumptions=ASSUMPTIONS,
+    trusted_base=['z3 5.1.0', 'pyvc symbolic executor', 'lark 1.3.1 (bounded only)'],
 )
